@@ -66,11 +66,13 @@ func alphabet(nNames int) []op {
 	return append(a, op{Kind: opClean, Name: -1})
 }
 
-// formFor fixes which net.IP representation a call passes: registrations pass a0 as
-// 4 bytes and a1 as 16 bytes, release/refresh pass the other representation of the
-// same address (a2 is IPv6 and has one form).
-func formFor(o op) int {
-	f := o.Addr & 1
+// formFor fixes which net.IP representation a call passes (a2 is IPv6 and has one
+// form): it alternates with the address and with the position in the sequence, and
+// release/refresh use the opposite of what a registration at that position would, so
+// that the exhaustive enumeration meets every pairing of the 4-byte and the 16-byte
+// form of one IPv4 address (register/register, register/release, register/refresh).
+func formFor(o op, pos int) int {
+	f := (o.Addr ^ pos) & 1
 	if o.Kind == opRelease || o.Kind == opRefresh {
 		f ^= 1
 	}
@@ -160,7 +162,7 @@ func (w *seqWorker) runSeq(cfg seqCfg, alpha []op, seq []int) {
 		base := "W1:" + kindName[o.Kind] + ":" + sit
 
 		// 1. the operation itself
-		a := apply(t, o, o.Name >= 0 && cfg.Expiring[o.Name], formFor(o))
+		a := apply(t, o, o.Name >= 0 && cfg.Expiring[o.Name], formFor(o, i))
 		w.evals++
 		if a.Panic != "" {
 			w.report(cfg, alpha, seq, i, base+":panic:"+a.Class, fmt.Sprintf("%s panicked: %s at %s", o, a.Panic, a.Frame))
